@@ -3,9 +3,12 @@ package bpx
 import (
 	"bytes"
 	"fmt"
+	"os"
 	"sort"
+	"strings"
 	"sync"
 	"sync/atomic"
+	"time"
 
 	ics23 "github.com/cosmos/ics23/go"
 
@@ -138,6 +141,12 @@ func checkCompleteness(ds *DelStats, sink Sink, m *Model, c Content, imm *bptree
 func CheckDeletionProofs(sink Sink, st *C25Stats, ds *DelStats, sc *Scenario, battery, cold bool, second int) {
 	pb := Params()
 	full := len(sc.U.Keys) <= 200
+	if os.Getenv("VERIF_VERBOSE") != "" {
+		c0, t0, n0 := CPUSeconds(), time.Now(), ds.Trees.Load()
+		defer func() {
+			fmt.Printf("  %-44s first-key deletions: trees=%d cpu=%.1fs wall=%.1fs\n", sc.Name, ds.Trees.Load()-n0, CPUSeconds()-c0, time.Since(t0).Seconds())
+		}()
+	}
 	if err := sc.Prepare(); err != nil {
 		sink.Violation(sc.Name+": prefill: "+err.Error(), nil)
 		return
@@ -147,7 +156,7 @@ func CheckDeletionProofs(sink Sink, st *C25Stats, ds *DelStats, sc *Scenario, ba
 	report := func(path []Op, reason string) {
 		vmu.Lock()
 		viols = append(viols, violation{
-			key: fmt.Sprintf("%s [first-key deletions]: %s => %s", sc.Name, PathStr(sc.U, path), trunc(reason, 160)),
+			key:    fmt.Sprintf("%s [first-key deletions]: %s => %s", sc.Name, PathStr(sc.U, path), trunc(reason, 160)),
 			detail: map[string]any{"scenario": sc.Name, "B": pb.B, "prefill": trunc(PathStr(sc.U, sc.Prefill), 400), "ops": PathStr(sc.U, path), "discrepancy": reason},
 		})
 		vmu.Unlock()
@@ -399,19 +408,22 @@ func ScenariosC25DelA() []*Scenario {
 	return out
 }
 
-// ScenariosC25DelB: the unscaled start shapes: two leaves (33 keys, the three insertion orders: 90/10 split, 50/50
-// split), 17-66 leaves under one root (512 keys) and three levels (1024/1056 keys).
+// ScenariosC25DelB: the unscaled start shapes with more than one leaf: two leaves (33 keys), 17-32 leaves under one root
+// (512 keys), three levels (1024 / 1056 keys), each inserted in ascending (90/10 splits: nearly full leaves), descending
+// (50/50 splits: every leaf at minimum occupancy) and interleaved order (quick: 8 of the 12: n33 x3, n512 asc/desc,
+// n1024 mix, n1056 asc/desc).
 func ScenariosC25DelB(thorough bool) ([]*Scenario, error) {
 	all, err := ScenariosB(true)
 	if err != nil {
 		return nil, err
 	}
-	keep := map[string]bool{"B32/n33-asc": true, "B32/n33-desc": true, "B32/n33-mix": true, "B32/n512-asc": true, "B32/n512-desc": true,
-		"B32/n1024-mix": true, "B32/n1056-asc": true, "B32/n1056-desc": true}
 	var out []*Scenario
 	for _, sc := range all {
-		if !thorough && !keep[sc.Name] {
-			continue
+		if strings.HasPrefix(sc.Name, "B32/n31-") || strings.HasPrefix(sc.Name, "B32/n32-") {
+			continue // a single leaf
+		}
+		if !thorough && (sc.Name == "B32/n1024-asc" || sc.Name == "B32/n1024-desc" || sc.Name == "B32/n1056-mix" || sc.Name == "B32/n512-mix") {
+			continue // quick: interleaved insertion is represented by n33-mix and n1024-mix
 		}
 		sc.Cfg = Cfg{Cache: 10000}
 		out = append(out, sc)
